@@ -156,6 +156,7 @@ def pool_cases(tasks, res, timeout=240, hang_key=None):
         if r is None or (isinstance(r, dict) and r.get("timeout")):
             n_to += 1
             res.count("worker_timeouts")
+            res.notes.append(f"worker timeout ({t.get('timeout', timeout)} s) on {t['fn']} {json.dumps(t['args'])}")
             if hang_key:
                 res.fail(hang_key, f"case did not finish within {t.get('timeout', timeout)} s (a lifecycle call did not return?): {json.dumps(t['args'])[:200]}", dict(task=t))
             continue
